@@ -10,4 +10,6 @@ CHECKS = {
             "deadline_s": {"quick": 300, "thorough": 3000}},
     "C15": {"pkg": "c15", "deps": [], "level": "model_checking",
             "deadline_s": {"quick": 300, "thorough": 3000}},
+    "C13": {"pkg": "c13", "deps": ["kit"], "level": "exploration",
+            "deadline_s": {"quick": 300, "thorough": 3000}},
 }
